@@ -225,7 +225,7 @@ fn run_case(id: &str, programs: &[Vec<String>], grace: bool, ttl: bool, strat: S
   loop {
     let mut g = sched.m.lock().unwrap();
     // wait until nobody is running: baton free, all expected threads registered, every thread settled
-    let deadline = std::time::Instant::now() + Duration::from_secs(5);
+    let deadline = std::time::Instant::now() + Duration::from_secs(90);
     loop {
       let settled = g.baton.is_none()
         && g.th.len() == g.expected_threads
@@ -269,6 +269,13 @@ fn run_case(id: &str, programs: &[Vec<String>], grace: bool, ttl: bool, strat: S
   let mut sigs = vec![];
   // monitor state: per key: resident generation open?  loads in the current miss generation
   let mut gen_loads: BTreeMap<u64, u32> = BTreeMap::new();
+  let mut in_flight: BTreeMap<u64, u32> = BTreeMap::new(); // key -> loads between `load` and `pendRemove`
+  let mut invalidated_at: BTreeMap<u64, usize> = BTreeMap::new(); // key -> log index of the last invalidation
+  let mut loaded_at: BTreeMap<u64, usize> = BTreeMap::new(); // value -> log index of its `load` step
+  let mut call_at: HashMap<usize, usize> = HashMap::new(); // thread -> log index of its current `call`
+  let mut li = 0usize;
+  let mut completed_with_marker: std::collections::BTreeSet<u64> = Default::default(); // loader tids that completed before removing their marker
+  let mut marker_removed: std::collections::BTreeSet<usize> = Default::default();
   let mut loaded_vals: BTreeMap<u64, Vec<u64>> = BTreeMap::new(); // key -> values produced by loads
   let mut resident: BTreeMap<u64, (u64, u64)> = BTreeMap::new(); // key -> (value, expires_at)
   let mut now = 1u64;
@@ -277,20 +284,36 @@ fn run_case(id: &str, programs: &[Vec<String>], grace: bool, ttl: bool, strat: S
   let mut load_idx = 0usize;
   let mut out_lines: Vec<String> = vec![];
   for l in &g.log {
+    li += 1;
     let w: Vec<&str> = l.split_whitespace().collect();
     let t: usize = w[0].parse().unwrap_or(0);
     match w[1] {
-      "call" => { cur_key.insert(t, w[2].parse().unwrap_or(0)); }
+      "call" => { cur_key.insert(t, w[2].parse().unwrap_or(0)); call_at.insert(t, li); }
+      // the single-flight window of a load ends when its loader task removes the pending marker
+      "pendRemove" => { marker_removed.insert(t); if let Some(k) = cur_key.get(&t) { if let Some(c) = in_flight.get_mut(k) { *c = c.saturating_sub(1); } } completed_with_marker.remove(&(t as u64)); }
+      // the code removes the marker BEFORE completing the future, so nobody can join a completed future
+      "complete" => { if !marker_removed.contains(&t) { completed_with_marker.insert(t as u64); } }
+      "pendingCS" if w.get(3) == Some(&"join") => {
+        let k = cur_key.get(&t).copied().unwrap_or(0);
+        if completed_with_marker.iter().any(|lt| cur_key.get(&(*lt as usize)) == Some(&k)) {
+          sigs.push(("loader:caller-joined-an-already-completed-future".to_string(), format!("thread {t} fetch({k}) joined a load whose future had already been completed (marker still present)")));
+        }
+      }
       "load" => {
         let k = keys_loaded.get(load_idx).copied().unwrap_or(0); load_idx += 1;
         cur_key.insert(t, k);
         let v: u64 = w[3].parse().unwrap_or(0);
         loaded_vals.entry(k).or_default().push(v);
+        loaded_at.insert(v, li);
+        let fl = in_flight.entry(k).or_insert(0); *fl += 1;
+        if *fl > 1 {
+          sigs.push(("loader:load-started-while-another-load-of-the-key-is-in-flight".to_string(), format!("key {k}: {} loader invocations overlap", *fl)));
+        }
         let c = gen_loads.entry(k).or_insert(0); *c += 1;
-        if *c > 1 { sigs.push(("loader:second-load-in-one-miss-generation".to_string(), format!("key {k}: load #{} started although no invalidation/expiry happened since the previous load of this miss", *c))); }
+        if *c > 1 && *fl <= 1 { sigs.push(("loader:second-load-in-one-miss-generation".to_string(), format!("key {k}: load #{} started after the previous load of this miss had completed, although no invalidation/expiry happened in between (late leader)", *c))); }
       }
       "mapInsert" => { let k = cur_key[&t]; let v = *loaded_vals[&k].last().unwrap(); resident.insert(k, (v, if ttl { now + TTL_NS } else { u64::MAX })); }
-      "invalidate" => { let k: u64 = w[2].parse().unwrap_or(0); resident.remove(&k); gen_loads.insert(k, 0); }
+      "invalidate" => { let k: u64 = w[2].parse().unwrap_or(0); resident.remove(&k); gen_loads.insert(k, 0); invalidated_at.insert(k, li); }
       "advance" => {
         let d: u64 = w[2].parse().unwrap_or(0);
         let new_now = now + d;
@@ -312,6 +335,13 @@ fn run_case(id: &str, programs: &[Vec<String>], grace: bool, ttl: bool, strat: S
         if !loaded_vals.get(&k).map_or(false, |vs| vs.contains(&v)) {
           sigs.push(("loader:fetch-returned-value-never-loaded-for-key".to_string(), format!("thread {t} fetch({k}) returned {v}")));
         }
+        // a fetch that STARTED after an invalidation of its key completed must not return a value whose
+        // load started before that invalidation
+        if let (Some(inv), Some(call), Some(ld)) = (invalidated_at.get(&k), call_at.get(&t), loaded_at.get(&v)) {
+          if inv < call && ld < inv {
+            sigs.push(("loader:fetch-after-invalidate-returned-pre-invalidation-value".to_string(), format!("thread {t} fetch({k}) started after invalidate({k}) completed but returned {v}, loaded before it")));
+          }
+        }
       }
       _ => {}
     }
@@ -325,6 +355,103 @@ fn run_case(id: &str, programs: &[Vec<String>], grace: bool, ttl: bool, strat: S
   sigs.sort(); sigs.dedup_by(|a, b| a.0 == b.0);
   for (s, m) in &sigs { tr.monitor(s, m); }
   Outcome { transcript: tr.finish(), choice_points, monitor_sigs: sigs.into_iter().map(|x| x.0).collect() }
+}
+
+// ---------------------------------------------------------------------------------------------
+// Async stress (no scheduler): real tasks on real threads, a waker whose `clone` is slow (widening any
+// window between "check state" and "register waiter" in a poll), watchdog for callers that are never
+// woken. Histories are judged by monitors only.
+mod astress {
+  use super::*;
+  use std::future::Future;
+  use std::pin::Pin;
+  use std::sync::atomic::AtomicUsize;
+  use std::task::{Context, Poll, RawWaker, RawWakerVTable, Waker};
+
+  struct Th { thread: std::thread::Thread, woken: std::sync::atomic::AtomicBool, slow: u32 }
+
+  unsafe fn w_clone(p: *const ()) -> RawWaker {
+    let a = Arc::from_raw(p as *const Th);
+    for _ in 0..a.slow { std::thread::yield_now(); std::hint::spin_loop(); }
+    if a.slow > 0 { std::thread::sleep(Duration::from_micros(a.slow as u64)); }
+    let b = a.clone();
+    std::mem::forget(a);
+    RawWaker::new(Arc::into_raw(b) as *const (), &VT)
+  }
+  unsafe fn w_wake(p: *const ()) { let a = Arc::from_raw(p as *const Th); a.woken.store(true, Ordering::SeqCst); a.thread.unpark(); }
+  unsafe fn w_wake_ref(p: *const ()) { let a = Arc::from_raw(p as *const Th); a.woken.store(true, Ordering::SeqCst); a.thread.unpark(); std::mem::forget(a); }
+  unsafe fn w_drop(p: *const ()) { drop(Arc::from_raw(p as *const Th)); }
+  static VT: RawWakerVTable = RawWakerVTable::new(w_clone, w_wake, w_wake_ref, w_drop);
+
+  /// block_on that only re-polls after a wake (or gives up at the deadline → None).
+  pub fn block_on<F: Future + ?Sized>(mut f: Pin<Box<F>>, slow: u32, deadline: std::time::Instant) -> Option<F::Output> {
+    let th = Arc::new(Th { thread: std::thread::current(), woken: std::sync::atomic::AtomicBool::new(true), slow });
+    let waker = unsafe { Waker::from_raw(RawWaker::new(Arc::into_raw(th.clone()) as *const (), &VT)) };
+    let mut cx = Context::from_waker(&waker);
+    loop {
+      if th.woken.swap(false, Ordering::SeqCst) {
+        if let Poll::Ready(v) = f.as_mut().poll(&mut cx) { return Some(v); }
+      } else {
+        if std::time::Instant::now() > deadline { return None; }
+        std::thread::park_timeout(Duration::from_millis(20));
+      }
+    }
+  }
+
+  struct Spawner;
+  impl fibre_cache::TaskSpawner for Spawner {
+    fn spawn(&self, future: Pin<Box<dyn Future<Output = ()> + Send>>) {
+      std::thread::spawn(move || { let _ = block_on(future, 0, std::time::Instant::now() + Duration::from_secs(10)); });
+    }
+  }
+
+  /// A loader future that returns Pending `n` times (self-waking) before producing the value.
+  struct Slow { n: u32, v: u64 }
+  impl Future for Slow {
+    type Output = (u64, u64);
+    fn poll(mut self: Pin<&mut Self>, cx: &mut Context<'_>) -> Poll<Self::Output> {
+      if self.n == 0 { Poll::Ready((self.v, 1)) } else { self.n -= 1; cx.waker().wake_by_ref(); std::thread::yield_now(); Poll::Pending }
+    }
+  }
+
+  pub fn run_case(id: &str, rng: &mut Rng) -> String {
+    verif_clock::unfreeze();
+    let callers = rng.range(2, 4) as usize;
+    let slow = *rng.pick(&[0u32, 5, 20, 60]);
+    let delay = rng.range(0, 6) as u32;
+    let loads = Arc::new(AtomicUsize::new(0));
+    let lc = loads.clone();
+    let cache = Arc::new(
+      CacheBuilder::<u64, u64>::default().shards(2).janitor_tick_interval(Duration::from_secs(3600))
+        .async_loader(move |_k: u64| { let v = lc.fetch_add(1, Ordering::SeqCst) as u64 + 1; Slow { n: delay, v } })
+        .spawner(Arc::new(Spawner))
+        .build_async().expect("build async cache"),
+    );
+    let barrier = Arc::new(std::sync::Barrier::new(callers));
+    let deadline = std::time::Instant::now() + Duration::from_secs(30);
+    let mut hs = vec![];
+    for i in 0..callers {
+      let (cache, barrier) = (cache.clone(), barrier.clone());
+      let stagger = rng.range(0, 40);
+      hs.push(std::thread::spawn(move || {
+        barrier.wait();
+        if i > 0 { for _ in 0..stagger { std::hint::spin_loop(); std::thread::yield_now(); } }
+        let c2 = cache.clone();
+        block_on(Box::pin(async move { *c2.fetch_with(&7u64).await }), slow, deadline)
+      }));
+    }
+    let res: Vec<Option<u64>> = hs.into_iter().map(|h| h.join().unwrap_or(None)).collect();
+    let mut tr = Tr::new(id, &format!("kind=async-stress callers={callers} waker_clone_delay={slow} loader_pending_polls={delay}"));
+    let n_loads = loads.load(Ordering::SeqCst);
+    tr.line(&format!("fetch_all 7"), &format!("{} loads={n_loads}", res.iter().map(|r| r.map_or("stuck".to_string(), |v| v.to_string())).collect::<Vec<_>>().join(",")));
+    if res.iter().any(|r| r.is_none()) {
+      tr.monitor("loader:async-caller-pending-never-woken-after-load-completed", &format!("{} of {callers} async callers were still Pending 30 s after start although the loader ran {n_loads} time(s)", res.iter().filter(|r| r.is_none()).count()));
+    }
+    if let Some(bad) = res.iter().flatten().find(|v| **v == 0 || **v as usize > n_loads) {
+      tr.monitor("loader:fetch-returned-value-never-loaded-for-key", &format!("async fetch returned {bad}"));
+    }
+    tr.finish()
+  }
 }
 
 fn gen_programs(rng: &mut Rng) -> (Vec<Vec<String>>, bool, bool) {
@@ -353,6 +480,12 @@ fn gen_programs(rng: &mut Rng) -> (Vec<Vec<String>>, bool, bool) {
 fn main() {
   match parse_args() {
     Mode::Gen { seed, cases, tier, extra } => {
+      if let Some(n) = extra.iter().find(|e| e.0 == "astress").and_then(|e| e.1.parse::<usize>().ok()) {
+        // independent cases: run 8 at a time
+        let outs = par_map(n, 8, |i| { let mut rng = Rng::new(seed.wrapping_mul(31337).wrapping_add(i as u64)); astress::run_case(&format!("a{seed}.{i}"), &mut rng) });
+        for o in outs { print!("{o}"); }
+        return;
+      }
       let dfs_budget: usize = extra.iter().find(|e| e.0 == "dfs").and_then(|e| e.1.parse().ok()).unwrap_or(if tier == "thorough" { 20000 } else { 1500 });
       let mut out = String::new();
       // 1. random programs x random schedules
